@@ -263,3 +263,5 @@ func c13expiry(c *evid.Ctx) {
 func refSHA1(b []byte) [20]byte { return ref.SHA1(b) }
 
 func krpcInt(id [20]byte) int160.T { return int160.FromByteArray(id) }
+
+func refSecure(id [20]byte, ip net.IP) [20]byte { return ref.Bep42Secure(id, ip) }
